@@ -234,6 +234,12 @@ pub fn generate_c07(thorough: bool, seed: u64, part: (usize, usize), em: &mut Em
             }
             crate::props::c16::emit(em, &keys, &[format!("X{}:{}", n, hex(&rr.bytes(9)))]);
         }
+        // the interface after it REFUSED a token: shorter, equal and longer tokens (genuine, tampered, cut, raw) follow on
+        // the same object — each call returns a value or an error
+        for &(a, b) in &[(20usize, 5usize), (20, 20), (5, 20), (1, 1), (64, 0), (0, 3), (300, 299)] { for bit in &[3usize, 40, 100, 130] {
+            let (pa, pb) = (rr.bytes(a), rr.bytes(b));
+            crate::props::c16::emit(em, &keys, &[format!("T{}:{}", bit, hex(&pa)), format!("M{}", hex(&pb)), format!("T{}:{}", bit, hex(&pb)), format!("X{}:{}", 16 + b / 2, hex(&pb)), format!("U{}", hex(&rr.bytes(17 + b))), format!("M{}", hex(&pa)), format!("M{}", hex(&pb[..b.min(1)]))]);
+        } }
     }
     let mut r = Rng::new(seed ^ 0xC07);
     let c = Creds { domain: "d".into(), user: "u".into(), password: "p".into(), from_hash: false };
